@@ -63,9 +63,9 @@ class Layout:
         pos = 0          # in words
         limit = (1 << ADDR_BITS) // 4
         n = 0
-        kinds = ['memword', 'memword', 'hwword', 'reg', 'reg', 'array', 'regfile', 'memory', 'memory', 'inout']
+        kinds = ['memword', 'memword', 'hwword', 'reg', 'reg', 'array', 'regfile', 'memory', 'memory', 'inout', 'creg', 'range', 'rom']
         if self.style == 'interconnect':
-            kinds = ['memword', 'memword', 'hwword', 'reg', 'array', 'memory']
+            kinds = ['memword', 'memword', 'hwword', 'reg', 'array', 'memory', 'creg', 'range']
         if self.style == 'words':
             kinds = ['memword', 'hwword', 'array', 'regfile']
         while pos < limit - 20 and n < 9:
@@ -77,8 +77,22 @@ class Layout:
                 self.items.append(Item(k, name, pos * 4, 1, unsigned=r.random() < 0.3))
                 pos += 1
             elif k == 'hwword':
-                self.items.append(Item(k, name, pos * 4, 1, const=r.getrandbits(32)))
+                self.items.append(Item(k, name, pos * 4, 1, const=r.getrandbits(32), vec=r.choice(['Word', 'Word', 'UWord', 'SWord'])))
                 pos += 1
+            elif k == 'creg':
+                self.items.append(Item(k, name, pos * 4, 1))
+                pos += 1
+            elif k == 'range':
+                words = r.choice([2, 3, 4, 8])
+                if r.random() < 0.5:
+                    pos = (pos + words - 1) // words * words
+                self.items.append(Item(k, name, pos * 4, words, relative=r.random() < 0.5))
+                pos += words
+            elif k == 'rom':
+                words = r.choice([2, 3, 4, 6])
+                self.items.append(Item(k, name, pos * 4, words, initial=[r.getrandbits(32) for _ in range(words)], inline=r.random() < 0.5,
+                                       mode=r.choice(['IMMEDIATE', 'SPLIT_WORDS'])))
+                pos += words
             elif k == 'reg':
                 self.items.append(self.gen_reg(name, pos * 4))
                 pos += 1
@@ -163,8 +177,9 @@ class Layout:
                 exports.append(f"            self.x_{n} <<= root.{n}.val(){'.bitvector' if it.unsigned else ''}")
                 self.exports.append((f"x_{n}", 32, it.name, None))
             elif it.kind == 'hwword':
-                root.append(f"    {n}: reg32.Word[0x{it.off:x}]")
-                conc.append(f"        self.{n} <<= self._top.hw_in ^ BitVector[32](Unsigned[32]({it.const}))")
+                root.append(f"    {n}: reg32.{it.vec}[0x{it.off:x}]")
+                view = {'Word': '', 'UWord': '.unsigned', 'SWord': '.signed'}[it.vec]
+                conc.append(f"        self.{n} <<= (self._top.hw_in ^ BitVector[32](Unsigned[32]({it.const}))){view}")
             elif it.kind == 'reg':
                 L.append(f"class Reg_{n}(reg32.Register):")
                 for f in it.fields:
@@ -220,6 +235,61 @@ class Layout:
                 L.append("")
                 root.append(f"    {n}: Reg_{n}[0x{it.off:x}]")
                 cfg.append(f"        self.{n}._config_(top)")
+            elif it.kind == 'creg':
+                L += [f"class Cnt_{n}(reg32.Register):",
+                      "    data: reg32.MemField[7:0, Null]",
+                      "    rd_push: reg32.UField[15:8, Null]",
+                      "    wr_push: reg32.UField[23:16, Null]",
+                      "    rd_flag: reg32.UField[27:24, Null]",
+                      "    wr_flag: reg32.UField[31:28, Null]",
+                      "    n_rp: reg32.PushOnNotify.Read",
+                      "    n_wp: reg32.PushOnNotify.Write",
+                      "    n_rf: reg32.FlagOnNotify.Read",
+                      "    n_wf: reg32.FlagOnNotify.Write",
+                      "    def _impl_(self, ctx):",
+                      "        @ctx",
+                      "        def p_push():",
+                      "            if self.n_rp:",
+                      "                self.rd_push <<= self.rd_push.val() + 1",
+                      "            if self.n_wp:",
+                      "                self.wr_push <<= self.wr_push.val() + 1",
+                      "        @ctx",
+                      "        async def p_rf():",
+                      "            async with self.n_rf:",
+                      "                self.rd_flag <<= self.rd_flag.val() + 1",
+                      "        @ctx",
+                      "        async def p_wf():",
+                      "            await cohdl.expr(bool(self.n_wf))",
+                      "            self.wr_flag <<= self.wr_flag.val() + 1",
+                      "            self.n_wf.clear()",
+                      ""]
+                root.append(f"    {n}: Cnt_{n}[0x{it.off:x}]")
+            elif it.kind == 'range':
+                L += [f"class Rng_{n}(reg32.AddrRange, word_count={it.words}):",
+                      "    def _config_(self, top):",
+                      "        self._top = top"]
+                if it.relative:
+                    L += ["    def _on_read_relative_(self, addr):",
+                          "        return std.leftpad(addr, 32)",
+                          "    def _on_write_relative_(self, addr, data, mask):"]
+                else:
+                    L += ["    def _on_read_(self, addr):",
+                          "        return std.leftpad(addr, 32)",
+                          "    def _on_write_(self, addr, data, mask):"]
+                L += [f"        self._top.x_{n}_a <<= std.leftpad(addr, 32)",
+                      f"        self._top.x_{n}_d <<= mask.apply(self._top.x_{n}_d, data)",
+                      ""]
+                ports.append(f"    x_{n}_a = Port.output(BitVector[32], default=Null)")
+                ports.append(f"    x_{n}_d = Port.output(BitVector[32], default=Null)")
+                self.exports.append((f"x_{n}_a", 32, it.name, '@a'))
+                self.exports.append((f"x_{n}_d", 32, it.name, '@d'))
+                root.append(f"    {n}: Rng_{n}[0x{it.off:x}]")
+                cfg.append(f"        self.{n}._config_(top)")
+            elif it.kind == 'rom':
+                L += [f"class Rom_{n}(reg32.RoMemory, word_count={it.words}):", "    pass", ""]
+                root.append(f"    {n}: Rom_{n}[0x{it.off:x}]")
+                init = '[' + ', '.join(f"BitVector[32](Unsigned[32]({v}))" for v in it.initial) + ']'
+                cfg.append(f"        self.{n}._config_({init}, mask_mode=reg32.Memory.MaskMode.{it.mode}, inline={it.inline})")
             elif it.kind == 'array':
                 root.append(f"    {n}: reg32.Array[reg32.MemWord, 0x{it.off:x}:0x{it.off + it.count * it.step * 4:x}:{it.step * 4}]")
             elif it.kind == 'regfile':
@@ -293,8 +363,11 @@ class Layout:
     def _mapped_words(self):
         m = {}
         for it in self.items:
-            if it.kind in ('memword', 'hwword', 'reg', 'input', 'output'):
+            if it.kind in ('memword', 'hwword', 'reg', 'input', 'output', 'creg'):
                 m[it.off] = (it, 0)
+            elif it.kind in ('range', 'rom'):
+                for i in range(it.words):
+                    m[it.off + i * 4] = (it, i)
             elif it.kind == 'array':
                 for i in range(it.count):
                     m[it.off + i * it.step * 4] = (it, i)
@@ -318,6 +391,8 @@ class Model:
         self.lay = layout
         self.map = layout.mapped_words()
         self.store = {}
+        self.wcnt = {}         # completed writes per counter register
+        self.rcnt = {}         # completed reads per counter register (shared by all copies: reads are not part of write prefixes)
         for a, (it, i) in self.map.items():
             if it.kind in ('memword', 'array', 'regfile'):
                 self.store[a] = 0
@@ -325,6 +400,12 @@ class Model:
                 self.store[a] = it.initial[i] if it.initial is not None else 0
             elif it.kind == 'output':
                 self.store[a] = 0
+            elif it.kind == 'rom':
+                self.store[a] = it.initial[i]
+            elif it.kind == 'creg':
+                self.store[a] = 0
+            elif it.kind == 'range':
+                self.store[('rng', it.name)] = (0, 0)        # last written (address, data as merged on the port)
             elif it.kind == 'reg':
                 v = 0
                 for f in it.fields:
@@ -336,6 +417,8 @@ class Model:
         m = Model.__new__(Model)
         m.lay, m.map = self.lay, self.map
         m.store = dict(self.store)
+        m.wcnt = dict(self.wcnt)
+        m.rcnt = self.rcnt
         return m
 
     def write(self, addr, data, strb):
@@ -350,6 +433,14 @@ class Model:
             if it.mode == 'IGNORE':
                 mask = M32             # documented: the mask parameter is ignored
             self.store[addr] = (self.store[addr] & ~mask | data & mask) & M32
+        elif it.kind == 'creg':
+            self.wcnt[addr] = self.wcnt.get(addr, 0) + 1
+            m8 = mask & 0xFF
+            self.store[addr] = self.store[addr] & ~m8 | data & m8
+        elif it.kind == 'range':
+            seen = (addr - self.lay.window_base) - (it.off if it.relative else 0)
+            old = self.store[('rng', it.name)][1]
+            self.store[('rng', it.name)] = (seen, (old & ~mask | data & mask) & M32)
         elif it.kind == 'reg':
             v = self.store[addr]
             for f in it.fields:
@@ -371,8 +462,13 @@ class Model:
         if ent is None:
             return 0
         it, i = ent
-        if it.kind in ('memword', 'array', 'regfile', 'memory'):
+        if it.kind in ('memword', 'array', 'regfile', 'memory', 'rom'):
             return self.store[addr]
+        if it.kind == 'range':
+            return (addr - self.lay.window_base) - (it.off if it.relative else 0)
+        if it.kind == 'creg':
+            rc, wc = self.rcnt.get(addr, 0), self.wcnt.get(addr, 0)
+            return self.store[addr] | (rc & 0xFF) << 8 | (wc & 0xFF) << 16 | (rc & 0xF) << 24 | (wc & 0xF) << 28
         if it.kind == 'output':
             return 0            # write-only
         if it.kind == 'hwword':
@@ -390,10 +486,17 @@ class Model:
                 v |= ((hw_in >> f['hwlo']) & m) << f['lo']
         return v
 
+    def care_mask(self, addr):
+        """bits of a read that are compared while traffic is in flight (event counters are compared at quiescence only)"""
+        ent = self.map.get(addr)
+        return 0xFF if ent is not None and ent[0].kind == 'creg' else M32
+
     def export_value(self, port):
         for p, w, iname, fname in self.lay.exports:
             if p == port:
                 it = next(x for x in self.lay.items if x.name == iname)
+                if fname in ('@a', '@d'):
+                    return self.store[('rng', iname)][0 if fname == '@a' else 1]
                 v = self.store[it.off + self.lay.window_base]
                 if fname is None:
                     return v
